@@ -13,10 +13,12 @@ func (x *Exec) contractFor(f *ssa.Function) *FuncContract {
 		return nil
 	}
 	k := funcKey(f)
-	if c, ok := x.cs.Funcs[k]; ok {
+	if c, ok := x.effCache[k]; ok {
 		return c
 	}
-	return nil
+	c := x.effectiveContract(f, x.cs.Funcs[k])
+	x.effCache[k] = c
+	return c
 }
 
 // familyFor returns the family contract of an interface method call.
@@ -208,7 +210,9 @@ func (x *Exec) modularCall(st *State, fr *Frame, v *ssa.Call, callee *ssa.Functi
 				vars["this"] = args[i]
 				tys["this"] = p.Type()
 				if _, isPtr := p.Type().Underlying().(*types.Pointer); isPtr {
-					x.emit(st, x.topKey+"/pre:recv-nonnil@"+site, "pre", Ne(x.ptrRef(args[i]), IntC(0)), nil)
+					if pv, ok := args[i].(*PtrV); ok && pv.Kind == PObj {
+						x.emit(st, x.topKey+"/pre:recv-nonnil@"+site, "pre", Ne(pv.Ref, IntC(0)), nil)
+					}
 				}
 			}
 		}
@@ -250,10 +254,12 @@ func (x *Exec) modularCall(st *State, fr *Frame, v *ssa.Call, callee *ssa.Functi
 	x.checkClauses(st, preEnv, fc.Requires, "pre", x.topKey, site, false)
 	// recursion variant
 	if fc.RecDec != nil && x.topC != nil && x.topC.RecDec != nil && x.sameRecGroup(callee) {
-		cv, err1 := preEnv.evalInt(fc.RecDec.Expr)
-		tv, err2 := x.preEnv.evalInt(x.topC.RecDec.Expr)
+		cv, err1 := preEnv.evalIntList(fc.RecDec.Expr)
+		tv, err2 := x.preEnv.evalIntList(x.topC.RecDec.Expr)
 		if err1 == nil && err2 == nil {
-			x.emit(st, fmt.Sprintf("%s/rec-dec@%s", x.topKey, site), "dec", And(Ge(tv, IntC(0)), Lt(cv, tv)), nil)
+			x.emit(st, fmt.Sprintf("%s/rec-dec@%s", x.topKey, site), "dec", lexLess(cv, tv), nil)
+		} else {
+			x.errors = append(x.errors, fmt.Sprintf("%s: decreases: %v %v", fc.Where, err1, err2))
 		}
 	}
 	// effects
@@ -384,6 +390,19 @@ func (x *Exec) checkModCovered(st *State, fr *Frame, v ssa.Instruction, it ModIt
 		x.checkFrame(st, fr, v, it.Ref, mapDomKey(it.MapT))
 	case "slicec":
 		x.checkFrame(st, fr, v, it.Ref, elemKey(it.ElemT, ""))
+	case "anyslice", "anymap":
+		for _, m := range x.mods {
+			if m.Kind == "all" {
+				return
+			}
+			if it.Kind == "anyslice" && m.Kind == "anyslice" && typeKey(m.ElemT) == typeKey(it.ElemT) {
+				return
+			}
+			if it.Kind == "anymap" && m.Kind == "anymap" && typeKey(m.MapT) == typeKey(it.MapT) {
+				return
+			}
+		}
+		x.emit(st, x.topKey+"/frame:"+it.Text+"@"+site, "frame", TFalse, nil)
 	}
 }
 
@@ -442,6 +461,22 @@ func (x *Exec) havocItem(st *State, it ModItem) {
 			arr := st.heapArr(key, ArrSort(SInt, ArrSort(SInt, l.sort)))
 			st.setHeap(key, Store(arr, it.Ref, Fresh("hv", ArrSort(SInt, l.sort))))
 		}
+	case "anyslice":
+		for _, l := range x.leaves(it.ElemT) {
+			key := elemKey(it.ElemT, l.path)
+			a := st.heapArr(key, ArrSort(SInt, ArrSort(SInt, l.sort)))
+			st.heap[key] = Fresh("Hs!"+key, a.Sort)
+		}
+	case "anymap":
+		ks, et := x.mapSorts(it.MapT)
+		dk := mapDomKey(it.MapT)
+		a := st.heapArr(dk, ArrSort(SInt, ArrSort(ks, SBool)))
+		st.heap[dk] = Fresh("Hm!"+dk, a.Sort)
+		for _, l := range x.leaves(et) {
+			vk := mapValKey(it.MapT, l.path)
+			a := st.heapArr(vk, ArrSort(SInt, ArrSort(ks, l.sort)))
+			st.heap[vk] = Fresh("Hm!"+vk, a.Sort)
+		}
 	}
 }
 
@@ -469,6 +504,60 @@ func (x *Exec) havocModText(st *State, fr *Frame, calleeKey, item string) {
 	if i := strings.IndexAny(item, ".("); i >= 0 {
 		root = item[:i]
 		rest = item[i:]
+	}
+	if strings.HasPrefix(item, "anyslice(") || strings.HasPrefix(item, "anymap(") {
+		pkgName := ""
+		if fc != nil {
+			pkgName = fc.Pkg
+		}
+		t := x.ld.resolveTypeString(pkgName, item[strings.Index(item, "(")+1:len(item)-1])
+		if t != nil {
+			if strings.HasPrefix(item, "anyslice(") {
+				x.havocItem(st, ModItem{Kind: "anyslice", ElemT: t})
+			} else {
+				x.havocItem(st, ModItem{Kind: "anymap", MapT: t})
+			}
+			return
+		}
+	}
+	if strings.HasPrefix(item, "asptr(") {
+		// asptr(x, *T).path : fields of an object of type T
+		close := strings.Index(item, ")")
+		comma := strings.LastIndex(item[:close], ",")
+		pkgName := ""
+		if fc != nil {
+			pkgName = fc.Pkg
+		}
+		if t := x.ld.resolveTypeString(pkgName, strings.TrimSpace(item[comma+1:close])); t != nil {
+			if pt, ok := t.(*types.Pointer); ok {
+				owner := pt.Elem()
+				path := strings.TrimPrefix(item[close+1:], ".")
+				segs := strings.Split(path, ".")
+				cur := ""
+				for i, sg := range segs {
+					if sg == "*" || sg == "" {
+						break
+					}
+					ft := fieldType(owner, joinPath(cur, sg))
+					if ft == nil {
+						cur = joinPath(cur, sg)
+						break
+					}
+					if pp, ok := ft.Underlying().(*types.Pointer); ok && i < len(segs)-1 {
+						owner = pp.Elem()
+						cur = ""
+						continue
+					}
+					cur = joinPath(cur, sg)
+				}
+				if strings.HasSuffix(path, "*") || path == "" {
+					x.havocPrefix(st, "F:"+structName(owner)+"."+cur)
+				} else {
+					x.havocPrefix(st, fieldKey(owner, cur))
+				}
+				return
+			}
+		}
 	}
 	if strings.HasPrefix(item, "contents(") {
 		// contents(e): havoc all maps / slices (by type is not known here): conservative
@@ -700,6 +789,10 @@ func (x *Exec) frameAllowed(st *State, ref *T, key string) *T {
 			if strings.HasPrefix(key, "E:"+typeKey(m.ElemT)) {
 				alts = append(alts, Eq(ref, m.Ref))
 			}
+		case "anyslice":
+			if strings.HasPrefix(key, "E:"+typeKey(m.ElemT)) {
+				return TTrue
+			}
 		}
 	}
 	return Or(alts...)
@@ -862,4 +955,21 @@ func (x *Exec) modularCallBound(st *State, fr *Frame, v *ssa.Call, fc *FuncContr
 		}
 		st.assume(t)
 	}
+}
+
+// lexLess: a <lex b, every component of b bounded below by 0.
+func lexLess(a, b []*T) *T {
+	n := len(a)
+	if len(b) < n {
+		n = len(b)
+	}
+	var alts []*T
+	for i := 0; i < n; i++ {
+		conj := []*T{Ge(b[i], IntC(0)), Lt(a[i], b[i])}
+		for j := 0; j < i; j++ {
+			conj = append(conj, Eq(a[j], b[j]))
+		}
+		alts = append(alts, And(conj...))
+	}
+	return Or(alts...)
 }
